@@ -169,7 +169,7 @@ func engineSplit(rc *RunCtx) *Outcome {
 	name := names[w.Choose(len(names))]
 	desc := sim.Catalog[name]().Description()
 	maxT := 32
-	T := 2 + w.Choose(maxT-1)
+	T := 1 + sizeDraw(w, maxT-1, 90)
 	cols, maxDim := drawColumns(w, name, 1)
 	col := cols[0]
 	sub, fixInputs := subDomain(w, name, desc, col)
